@@ -423,6 +423,25 @@ def r11(ctx, rep):
     rep.check(n_sites >= 4, "sites", f"expected >= 4 Value::Number construction sites under sql/, found {n_sites}")
 
 
+def r12(ctx, rep):
+    rep.rule("C07.R12", "after the projection a renamed column is referred to by its alias alone, never as <table>.<alias>", floor=1)
+    syn = ctx.syn
+    f = syn.fn("gen_expr::translate_cid", crate="prqlc")
+    # the branch that builds `translate_ident(table_name.., Some(column), ctx)` from the relation instance's name and the registered column name
+    site = None
+    for n in walk(f["body"]):
+        if n.get("k") == "call" and last_seg(show(n["f"])) == "translate_ident" and len(n["a"]) >= 2 and "table_name" in show(n["a"][0]) and show(n["a"][1]) == "Some(column)":
+            site = n
+    if site is None:
+        raise AnchorMissing("translate_cid: translate_ident(table_name.., Some(column), ctx)")
+    # the qualifier (relation_instances) and the name (column_names) come from two tables; they agree only while the column keeps its own name.
+    agree = [n for n in walk(f["body"]) if (n.get("k") == "bin" and n["op"] in ("==", "!=") and "column" in (show(n["lhs"]), show(n["rhs"]), show(n["lhs"]).lstrip("*&"), show(n["rhs"]).lstrip("*&")))
+             or (n.get("k") == "match" and any(a.get("guard") is not None and "column" in show(a["guard"]) for a in n["arms"]))]
+    rep.check(bool(agree), "qualified-alias", "translate_cid qualifies the registered column name with the relation's name without testing that the name is still the relation column's own: "
+              "when the projection renamed the column (`a.x AS _expr_0`) the ORDER BY of that SELECT refers to `a._expr_0`, which is not a column of `a`",
+              file=f["file"], line=site["l"], fn=f["path"])
+
+
 def run(ctx, rep):
-    for r in (r1, r2, r3, r4, r5, r6, r7, r8, r9, r10, r11):
+    for r in (r1, r2, r3, r4, r5, r6, r7, r8, r9, r10, r11, r12):
         rep.guard(r, ctx)
